@@ -84,6 +84,16 @@ def _read_before_write(stmts):
     return out
 
 
+def bind_module_constants(src, ns):
+    """module-level `NAME = <literal>` assignments of the file (e.g. `_AXES = (0, 1, 2)`), for names the namespace lacks"""
+    for st in ast.parse(src).body:
+        if isinstance(st, ast.Assign) and len(st.targets) == 1 and isinstance(st.targets[0], ast.Name) and st.targets[0].id not in ns:
+            try:
+                ns[st.targets[0].id] = ast.literal_eval(st.value)
+            except Exception:
+                pass
+
+
 class RefractCut:
     """The current `refract`, cut at its `while`.  Nothing depends on the NAMES of its locals: the roles are found from
     the data flow — the two loop-control variables are the names the loop condition reads and the body assigns (the
@@ -99,13 +109,18 @@ class RefractCut:
         self.params = [a.arg for a in fn.args.args]
         self.defaults = {a.arg: ast.literal_eval(d) for a, d in zip(fn.args.args[-len(fn.args.defaults):], fn.args.defaults)} if fn.args.defaults else {}
         body = [st for st in fn.body if not (isinstance(st, ast.Expr) and isinstance(getattr(st, 'value', None), ast.Constant))]
-        loops = [i for i, st in enumerate(body) if isinstance(st, (ast.While, ast.For))]
+        # "the loop" is the one top-level statement that iterates on data: a `while`, or a `for` that can `break`; a plain
+        # `for axis in (0, 1, 2): ...` over a concrete iterable is straight-line code that python itself unrolls when the
+        # piece it belongs to is executed
+        def has_break(st): return any(isinstance(n, ast.Break) for n in ast.walk(st))
+        loops = [i for i, st in enumerate(body) if isinstance(st, ast.While) or (isinstance(st, ast.For) and has_break(st))]
         helpers = [st for st in body if isinstance(st, ast.FunctionDef)]
         inner = [n for st in body if not isinstance(st, ast.FunctionDef) for n in ast.walk(st)]
         bad = [n for n in inner if isinstance(n, (ast.Continue, ast.Try, ast.With, ast.Raise, ast.Yield, ast.FunctionDef, ast.Global, ast.Nonlocal))]
         bad += [n for h in helpers for n in ast.walk(h) if isinstance(n, (ast.While, ast.For, ast.Try, ast.With, ast.Raise, ast.Yield, ast.Global, ast.Nonlocal))]
         rets = [n for n in inner if isinstance(n, ast.Return)]
-        nested = [n for st in body for n in ast.walk(st) if isinstance(n, (ast.While, ast.For)) and n is not st and not isinstance(st, ast.FunctionDef)]
+        nested = [n for st in body for n in ast.walk(st) if not isinstance(st, ast.FunctionDef) and n is not st
+                  and (isinstance(n, ast.While) or (isinstance(n, ast.For) and (has_break(n) or n.orelse)))]
         if len(loops) != 1 or body[loops[0]].orelse or bad or nested \
                 or len(rets) != 1 or body[-1] is not rets[0] or any(body.index(h) > loops[0] for h in helpers):
             raise shim.TraceError('refract no longer has the shape `pre; loop; post; return`')
@@ -202,6 +217,7 @@ class RefractCut:
         vals = {'vector': shim.sym('v', vshape), 'normvector': shim.sym('n', nshape), 'n1': shim.var('n1'), 'n2': shim.var('n2'),
                 'error': shim.var('error'), 'max_iterations': shim.var('cap')}
         shim.load(TORCH, [], ns)                     # module-level helpers of the file (a private helper a refactoring introduces)
+        bind_module_constants(self.src, ns)
         for p_ in self.params:
             if p_ not in vals:
                 raise shim.TraceError('refract has an unknown parameter %s' % p_)
@@ -237,6 +253,7 @@ def trace_reflect(g):
     # ---------------- PyTorch
     ns = shim.base_namespace()
     shim.load(TORCH, ['reflect'], ns)
+    bind_module_constants(open(os.path.join(shim.REPO, TORCH)).read(), ns)
     r = ns['reflect'](shim.sym('v', (1, 2, 3)), shim.sym('n', (1, 2, 3)))
     assert r.shape == (1, 2, 3), r.shape
     for k in range(3):
@@ -263,6 +280,7 @@ def trace_reflect(g):
     # ---------------- NumPy
     ns2 = shim.base_namespace()
     shim.load(NUMPY, ['reflect'], ns2)
+    bind_module_constants(open(os.path.join(shim.REPO, NUMPY)).read(), ns2)
     r = ns2['reflect'](shim.sym('v', (1, 2, 3)), shim.sym('n', (2, 2, 3)))         # ONE ray, two normals
     assert r.shape == (2, 2, 3), r.shape
     for i in range(2):
